@@ -129,12 +129,13 @@ FIXED = {
  "fs:head-without-etag": "42c2f29",
  "fs:complete-missing-part-internal-error": "0932917", "fs:failed-complete-consumes-upload": "0932917",
  "fs:unknown-upload-code": "38336b0", "fs:list-parts-unknown-upload": "38336b0",
+ "fs:part-number-not-validated": "531fc88",
 }
 # repairs whose text says explicitly that it describes the code before the repair
 BEFORE = {"fs:head-missing-key-code", "fs:delete-missing-key-error", "fs:missing-bucket-reported-as-missing-key",
           "fs:delete-objects-in-missing-bucket", "fs:head-without-etag",
           "fs:complete-missing-part-internal-error", "fs:failed-complete-consumes-upload",
-          "fs:unknown-upload-code", "fs:list-parts-unknown-upload"}
+          "fs:unknown-upload-code", "fs:list-parts-unknown-upload", "fs:part-number-not-validated"}
 
 lines, findings = [], []
 for i, (cls, ops, what) in enumerate(W, 1):
